@@ -13,7 +13,7 @@ ArgOf(sh, n) == [s |-> IF sh.keys \in {"s", "sl"} THEN 96 + n ELSE 0, l |-> IF s
                  pos |-> FALSE, kind |-> "int", vm |-> "req", mand |-> sh.mand, card |-> [t |-> "dflt", a |-> 0, b |-> 0],
                  checks |-> <<>>, formats |-> <<>>, sep |-> 44, clear |-> FALSE, sort |-> FALSE, uniq |-> "no", multi |-> FALSE,
                  req |-> <<>>, exc |-> <<>>, init |-> n, depr |-> sh.depr # "no", unset |-> FALSE, cspell |-> 0, grp |-> 0,
-                 hidden |-> sh.hidden, dashes |-> FALSE, printdef |-> "dflt",
+                 hidden |-> sh.hidden, dashes |-> FALSE, mix |-> FALSE, printdef |-> "dflt",
                  repl |-> IF sh.depr = "repl" THEN <<45, 45, 110, 101, 119>> ELSE <<>>]
 CfgOf == [abbr |-> TRUE, endvalues |-> FALSE, hcons |-> <<>>, args |-> [n \in 1..NArgsMC |-> ArgOf(shapes[n], n)],
           usagehidden |-> hid, usagedepr |-> dep, usageshort |-> cont = "short", usagelong |-> cont = "long", help |-> cont # "all"]
